@@ -1128,7 +1128,9 @@ class Generator:
         elif isinstance(expression, exp.Property):
             sql = self.property_sql(expression)
         else:
-            raise ValueError(f"Unsupported expression type {expression.__class__.__name__}")
+            raise UnsupportedError(
+                f"Unsupported expression type {expression.__class__.__name__}"
+            )
 
         return self.maybe_comment(sql, expression) if self.comments and comment else sql
 
